@@ -20,6 +20,11 @@ package main
 // discarded writer), as cmd/serve does with `log.level`: the dump middleware of the HTTP based services and the trace /
 // debug code paths of the pipeline only run at some levels. Bodies may be some hundred KiB long; long values are
 // reported by digest (c13Val).
+//
+// The services are created with the `buffer_limit` block of the case (`limits`: read and write in bytes, the same
+// block for serve.decision and serve.proxy, the Envoy gRPC service uses the one of the decision service; absent: 0/0
+// as in a hand-made configuration). What heimdall's configuration loader yields for a configuration that says nothing
+// about the services (the documented defaults) is reported by `{"fam":"entryview","op":"defaults"}`.
 
 import (
 	"bufio"
@@ -40,6 +45,8 @@ import (
 	"net"
 	"net/http"
 	"net/http/httptest"
+	"os"
+	"path/filepath"
 	"sort"
 	"strconv"
 	"strings"
@@ -49,6 +56,7 @@ import (
 	"time"
 
 	envoy_auth "github.com/envoyproxy/go-control-plane/envoy/service/auth/v3"
+	"github.com/inhies/go-bytesize"
 	"github.com/rs/zerolog"
 	"google.golang.org/grpc"
 	"google.golang.org/grpc/credentials/insecure"
@@ -111,7 +119,7 @@ func c13Val(s string) string {
 // case format
 
 type c13Probe struct {
-	K string `json:"k"` // method scheme host path query capture header cookie body
+	K string `json:"k"` // method scheme host hostname port path query capture header cookie body
 	A string `json:"a"`
 }
 
@@ -180,6 +188,41 @@ func (r *c13Respond) class(status int) string {
 	}
 
 	return "status-" + strconv.Itoa(status)
+}
+
+// c13Limits is the `buffer_limit` block of serve.decision and serve.proxy (bytes; the Envoy gRPC service uses the block
+// of the decision service).
+type c13Limits struct {
+	Read  int64 `json:"read"`
+	Write int64 `json:"write"`
+}
+
+// c13Defaults: what heimdall's configuration loader (config.NewConfiguration: built-in defaults, configuration file,
+// environment) yields for a configuration file that says nothing about the services — the documented defaults of
+// `serve.decision.buffer_limit` and `serve.proxy.buffer_limit`.
+func c13Defaults() (any, error) {
+	dir, err := os.MkdirTemp("", "verif-c13-conf-")
+	if err != nil {
+		return nil, err
+	}
+
+	defer os.RemoveAll(dir)
+
+	file := filepath.Join(dir, "heimdall.yaml")
+	if err = os.WriteFile(file, []byte("log:\n  level: error\n"), 0o600); err != nil {
+		return nil, err
+	}
+
+	conf, err := config.NewConfiguration("VERIFC13NOENV_", config.ConfigurationPath(file))
+	if err != nil {
+		return nil, err
+	}
+
+	limits := func(sc config.ServiceConfig) map[string]any {
+		return map[string]any{"read": int64(sc.BufferLimit.Read), "write": int64(sc.BufferLimit.Write)}
+	}
+
+	return map[string]any{"decision": limits(conf.Serve.Decision), "proxy": limits(conf.Serve.Proxy)}, nil
 }
 
 type c13Req struct {
@@ -256,6 +299,8 @@ func (c13SpyAuthorizer) Execute(ctx heimdall.Context, _ *subject.Subject) error 
 		"method":   c13Chars(req.Method),
 		"scheme":   c13Chars(req.URL.Scheme),
 		"host":     c13Chars(req.URL.Host),
+		"hostname": c13Chars(req.URL.Hostname()),
+		"port":     c13Chars(req.URL.Port()),
 		"path":     c13Chars(req.URL.Path),
 		"rawpath":  c13Chars(req.URL.RawPath),
 		"query":    c13Chars(req.URL.RawQuery),
@@ -327,6 +372,10 @@ func c13Template(p c13Probe) string {
 		return `{{ .Request.URL.Scheme | urlenc }}`
 	case "host":
 		return `{{ .Request.URL.Host | urlenc }}`
+	case "hostname":
+		return `{{ .Request.URL.Hostname | urlenc }}`
+	case "port":
+		return `{{ .Request.URL.Port | urlenc }}`
 	case "path":
 		return `{{ .Request.URL.Path | urlenc }}`
 	case "query":
@@ -352,6 +401,10 @@ func c13CEL(p c13Probe) string {
 		return `Request.URL.Scheme`
 	case "host":
 		return `Request.URL.Host`
+	case "hostname":
+		return `Request.URL.Hostname()`
+	case "port":
+		return `Request.URL.Port()`
 	case "path":
 		return `Request.URL.Path`
 	case "query":
@@ -456,7 +509,7 @@ type c13Upstream struct {
 	payload string // the body the upstream application received ("read error: …" if it could not be read)
 }
 
-// c13Stack: the three services started with one response configuration and one log level
+// c13Stack: the three services started with one response configuration, one log level and one `buffer_limit` block
 type c13Stack struct {
 	decision, decisionTLS string
 	proxy, proxyTLS       string
@@ -467,7 +520,7 @@ type c13Stack struct {
 type c13Services struct {
 	*c13Stack // of the case at hand
 
-	stacks   map[string]*c13Stack // by response configuration and log level
+	stacks   map[string]*c13Stack // by response configuration, log level and buffer limits
 	tlsCfg   *tls.Config
 	upstream *httptest.Server
 	up       *c13Upstream
@@ -616,9 +669,10 @@ func c13Logger(level string) (zerolog.Logger, error) {
 	return zerolog.New(io.Discard).Level(lvl).With().Timestamp().Logger(), nil
 }
 
-// stack starts (once per response configuration and log level) the real decision, proxy and Envoy ext_authz services
-func (svc *c13Services) stack(rc *c13Respond, level string) (*c13Stack, error) {
-	key := fmt.Sprintf("%+v|%s", *rc, level)
+// stack starts (once per response configuration, log level and buffer limits) the real decision, proxy and Envoy
+// ext_authz services
+func (svc *c13Services) stack(rc *c13Respond, level string, lim c13Limits) (*c13Stack, error) {
+	key := fmt.Sprintf("%+v|%s|%+v", *rc, level, lim)
 	if st, ok := svc.stacks[key]; ok {
 		return st, nil
 	}
@@ -640,7 +694,10 @@ func (svc *c13Services) stack(rc *c13Respond, level string) (*c13Stack, error) {
 	respond.With.NoRuleError.Code = rc.Codes.NoRule
 
 	st := &c13Stack{decSwitch: &c13Switch{}, prxSwitch: &c13Switch{}}
-	sc := config.ServiceConfig{Host: "127.0.0.1", Respond: respond}
+	sc := config.ServiceConfig{
+		Host: "127.0.0.1", Respond: respond,
+		BufferLimit: config.BufferLimit{Read: bytesize.ByteSize(lim.Read), Write: bytesize.ByteSize(lim.Write)}, //nolint:gosec
+	}
 	conf := &config.Configuration{Serve: config.ServeConfig{Decision: sc, Proxy: sc}}
 
 	serve := func(srv *http.Server) (string, string, error) {
@@ -1018,6 +1075,10 @@ func c13UpCookies(cs []*http.Cookie) [][]string {
 }
 
 func runEntryView(c map[string]any) (any, error) {
+	if getStr(c, "op") == "defaults" {
+		return c13Defaults()
+	}
+
 	c13Once.Do(func() { c13Svc, errC13 = c13Start() })
 
 	if errC13 != nil {
@@ -1030,9 +1091,10 @@ func runEntryView(c map[string]any) (any, error) {
 		lr  c13Req
 		spy c13Spy
 		rc  c13Respond
+		lim c13Limits
 	)
 
-	for key, dst := range map[string]any{"req": &lr, "spy": &spy, "respond": &rc} {
+	for key, dst := range map[string]any{"req": &lr, "spy": &spy, "respond": &rc, "limits": &lim} {
 		if c[key] == nil {
 			continue
 		}
@@ -1047,7 +1109,7 @@ func runEntryView(c map[string]any) (any, error) {
 		}
 	}
 
-	st, err := svc.stack(&rc, getStr(c, "log"))
+	st, err := svc.stack(&rc, getStr(c, "log"), lim)
 	if err != nil {
 		return nil, err
 	}
